@@ -32,7 +32,7 @@ def fe_harness0(rep, cfg, modpath, fn, in_bounds, spec, out_bound, tier, extra_i
             if n2 == gname: return eval_concrete(r2, c2), dict(llsym_concrete_outputs=[x.cval() for x in o2])
         return False, "goal not found"
     return discharge(rep, run, "%s/%s" % (cfg, fn), goals, o, cfg, fn,
-                     "input limbs <= %s ; all values" % (in_bounds,), timeout_s=timeout_s, replay=replay,
+                     "input limbs <= %s ; all values" % (in_bounds,), timeout_s=timeout_s, replay=replay, selftest=build_run,
                      assumptions=[note] if note else [])
 
 def run_config(rep, cfg, tier, tasks):
@@ -48,7 +48,9 @@ def run_config(rep, cfg, tier, tasks):
     fe_harness(rep, cfg, modpath, "vp_fe_add", [F["add_in"], F["add_in"]], lambda a, b: a + b, addout, tier, timeout_s=T)
     fe_harness(rep, cfg, modpath, "vp_fe_sub", [F["sub_lhs"], F["sub_rhs"]], lambda a, b: a - b, F["reduced"], tier, timeout_s=T)
     fe_harness(rep, cfg, modpath, "vp_fe_neg", [F["sub_rhs"]], lambda a: -a, F["reduced"], tier, timeout_s=T)
-    tasks.append(lambda: enc_harness(rep, cfg, modpath, tier, T))
+    if not (cfg == "fiat32" and tier == "quick"):
+        # fiat32 to_bytes (borrow/cmov chains on 10 limbs) needs > 2 min of solver time: thorough tier only
+        tasks.append(lambda: enc_harness(rep, cfg, modpath, tier, 900 if cfg == "fiat32" else T))
     tasks.append(lambda: dec_harness(rep, cfg, modpath, tier, T))
 
 def enc_harness(rep, cfg, modpath, tier, T):
@@ -70,7 +72,7 @@ def enc_harness(rep, cfg, modpath, tier, T):
         for (n2, c2) in g2:
             if n2 == gname: return eval_concrete(r2, c2), dict(llsym_concrete_outputs=[x.cval() for x in o2])
         return False, "goal not found"
-    discharge(rep, run, "%s/vp_fe_as_bytes" % cfg, goals, o, cfg, "vp_fe_as_bytes", "limbs <= %s" % (F["enc_in"],), timeout_s=max(T, 120), replay=replay)
+    discharge(rep, run, "%s/vp_fe_as_bytes" % cfg, goals, o, cfg, "vp_fe_as_bytes", "limbs <= %s" % (F["enc_in"],), timeout_s=max(T, 120), replay=replay, selftest=build_run)
 
 def dec_harness(rep, cfg, modpath, tier, T):
     F = FIELD[cfg]; lay = F["layout"]
@@ -91,7 +93,7 @@ def dec_harness(rep, cfg, modpath, tier, T):
         for (n2, c2) in g2:
             if n2 == gname: return eval_concrete(r2, c2), dict(llsym_concrete_outputs=[x.cval() for x in o2])
         return False, "goal not found"
-    discharge(rep, run, "%s/vp_fe_from_bytes" % cfg, goals, o, cfg, "vp_fe_from_bytes", "all 2^256 byte strings", timeout_s=T, replay=replay)
+    discharge(rep, run, "%s/vp_fe_from_bytes" % cfg, goals, o, cfg, "vp_fe_from_bytes", "all 2^256 byte strings", timeout_s=T, replay=replay, selftest=build_run)
 
 def run(tier, seed):
     rep = Report("C01")
